@@ -203,6 +203,11 @@ def seq_array(eng, v):
             raise Unsupported("aggregate over a sequence of non-scalars")
         tt = to_term(t, "real")
         return z3.Lambda([v.i0], tt), to_term(v.length)
+    if isinstance(v, SymList):
+        arr = v.arr
+        if arr.range() != z3.RealSort():
+            raise Unsupported("aggregate over int SymList")
+        return arr, v.length
     if isinstance(v, (list, tuple)):
         arr = z3.K(z3.IntSort(), z3.RealVal(0))
         for i, x in enumerate(v):
@@ -242,7 +247,7 @@ def _agg(name):
         if name == "mean":
             fn = "average"
         arr, n = seq_array(eng, v)
-        if isinstance(v, SymSeq):
+        if isinstance(v, (SymSeq, SymList)):
             if not eng.truth(wrap(n > 0)):
                 if name in ("min", "max"):
                     raise PyRaise(PyExc(ValueError, ("zero-size array to reduction operation",)))
